@@ -1126,6 +1126,8 @@ class Exec:
 
     def opaque_call(self, what, p, node):
         self.assume_note(f'unmodelled call: {what} (result unknown, may raise)')
+        if not what.startswith('closure ') and hasattr(self, 'effect'):
+            p = p.fork(); self.effect(f'call:{what}', node, p)       # an unmodelled call may do anything, including output
         outs = [(p, VUnk(f'call {what}'))]
         if self.opts.get('unk_raises', True):
             outs.append((p.fork(), Raised(VExc('Exception?', where=getattr(node, 'lineno', None)))))
